@@ -35,6 +35,7 @@ def check_percent_rule(ctx, fname, formula, kind_id):
     x, is_money, cur = number_or_money(ex, num)
     p = fval(pt, "Percent").t
     rp = ("m_replay_percent_rule_%d" % kind_id, [(is_money, "bool"), (x, "f64"), (p, "f64")])
+    ctx.probe(fname, ex, outs, lambda o: ok_payload(o)[1][0].t, [(is_money, False), (x, 40), (p, 6)])
     n_ok = 0
     for o in outs:
         if o.kind == "panic":
@@ -75,6 +76,7 @@ def _(ctx):
     a, a_money, _ = number_or_money(ex, toks["part"])
     b, b_money, _ = number_or_money(ex, toks["total"])
     rp = ("m_replay_find_numbers_percent", [(a_money, "bool"), (a, "f64"), (b_money, "bool"), (b, "f64")])
+    ctx.probe("find_numbers_percent", ex, outs, lambda o: ok_payload(o)[1][0].t, [(a_money, False), (b_money, False), (a, 15), (b, 60)])
     n_ok = 0
     for o in outs:
         if o.kind == "panic":
@@ -98,6 +100,7 @@ def _(ctx):
     a, a_money, cur = number_or_money(ex, toks["number_part"])
     p = fval(toks["percent_part"], "Percent").t
     rp = ("m_replay_find_total_from_percent", [(a_money, "bool"), (a, "f64"), (p, "f64")])
+    ctx.probe("find_total_from_percent", ex, outs, lambda o: ok_payload(o)[1][0].t, [(a_money, False), (a, 20), (p, 8)])
     n_ok = 0
     for o in outs:
         if o.kind == "panic":
@@ -160,6 +163,9 @@ def _(ctx):
         x = me.field(0, "f64").t
         y = other.payload("NumberItem").field(0, "f64").t
         rp = ("m_replay_number_calc", [(OPS.index(op), "u8"), (x, "f64"), (y, "f64")])
+        if op == "Div":
+            ctx.probe("number_div", ex, outs, lambda o: some_item(o).f[0].t, [(x, 7), (y, 2)])
+            ctx.probe("number_div_zero", ex, outs, lambda o: some_item(o).f[0].t, [(x, 7), (y, 0)])
         for o in outs:
             if o.kind == "panic":
                 ctx.reachable(ex, o.path, "NumberItem %s can panic: %s" % (op, o.msg), rp)
@@ -190,6 +196,8 @@ def _(ctx):
                 ex.assumptions.append(z3.And(digits >= 0, digits <= 4))   # config.json currencies have 0..3 decimal digits
             rp = ("m_replay_calc_percent", [(kind == "MoneyItem", "bool"), (op == "Add", "bool"), (x, "f64"), (p, "f64"), (digits, "u8")])
             want = x * (1 + p / 100) if op == "Add" else x * (1 - p / 100)
+            if kind == "MoneyItem" and op == "Sub":
+                ctx.probe("money_sub_percent", ex, outs, lambda o: some_item(o).f[0].t, [(x, 6), (p, 50)])
             for o in outs:
                 if o.kind == "panic":
                     ctx.reachable(ex, o.path, "%s %s PercentItem can panic: %s" % (kind, op, o.msg), rp)
@@ -241,6 +249,8 @@ def _(ctx):
         code = z3.Function("currency.code", z3.IntSort(), z3.StringSort())
         rp = ("m_replay_convert_money", [(src == dst, "bool"), (x, "f64"), (r_s, "f64"), (r_d, "f64"), (code(src) == z3.StringVal("USD"), "bool")])
         ctx.claim(ex, o.path, z3.And(has_s, has_d), "convert_money succeeds without a rate", rp)
+        if "convert_money" not in ctx.probes:
+            ctx.probe("convert_money", ex, [o], lambda o_: ok_payload(o_)[1][0].t, [(x, 6), (r_s, 4), (r_d, 10), (src != dst, True)])
         ctx.claim(ex, o.path, f[0].t == z3.If(r_s == 0, 0, x / r_s) * r_d, "convert_money is not amount / rate(A) * rate(B)", rp)
         ctx.claim(ex, o.path, z3.Implies(z3.And(src == dst, r_s != 0), f[0].t == x), "convert_money A -> A is not the identity", rp)
     if not n_ok:
@@ -266,6 +276,8 @@ def _(ctx):
         conv = y / r_r * r_l
         sym = z3.Function("currency.f1", z3.IntSort(), z3.StringSort())
         rp = ("m_replay_money_money", [(OPS.index(op), "u8"), (lc == rc, "bool"), (x, "f64"), (y, "f64"), (r_l, "f64"), (r_r, "f64"), (sym(lc) == sym(rc), "bool")])
+        if op == "Add":
+            ctx.probe("money_add_money", ex, outs, lambda o: some_item(o).f[0].t, [(x, 6), (y, 5), (r_l, 4), (r_r, 10), (lc, 0), (rc, 1)])
         for o in outs:
             if o.kind == "panic":
                 ctx.reachable(ex, o.path, "MoneyItem %s MoneyItem can panic: %s" % (op, o.msg), rp)
@@ -359,6 +371,9 @@ def run_duration_parse(ctx, count_bound, strict, what):
     outs, _ = run_fn(ex, "duration_rules::duration_parse", args)
     ctx.part.functions += ["duration_rules::duration_parse", "tokinizer::tools::get_number", "tokinizer::tools::get_text"]
     ctx.paths += len(outs)
+    _c = unit_cond(ex, Path(), ex.discr("ConstantType", "Month")) if outs else None
+    if _c is not None:
+        ctx.probe("duration_parse_months", ex, outs, lambda o: duration_payload(o), [(x.t, 14), (_c, True)])
     consts = ex.enums["ConstantType"]
     # the ConstantType found for the unit word: locate the executor's lookup symbol
     tags = [t for name, t in ex.inputs.items() if False]
@@ -545,6 +560,7 @@ def _(ctx):
     ctx.part.functions.append("duration_rules::as_duration")
     ctx.paths += len(outs)
     rp = ("m_replay_as_duration", [(tag, "u8"), (d, "i64")])
+    ctx.probe("as_duration_hours", ex, outs, lambda o: duration_payload(o), [(d, 90061), (tag, ex.discr("ConstantType", "Hour"))])
     n_ok = 0
     for o in outs:
         if o.kind == "panic":
@@ -582,6 +598,8 @@ def _(ctx):
         ctx.part.functions.append("compiler::duration::calculate")
         ctx.paths += len(outs)
         rp = ("m_replay_duration_calc", [(op == "Add", "bool"), (a, "i64"), (b, "i64")])
+        if op == "Sub":
+            ctx.probe("duration_sub", ex, outs, lambda o: some_item(o).f[0].secs, [(a, 500), (b, 1700)])
         for o in outs:
             if o.kind == "panic":
                 ctx.reachable(ex, o.path, "DurationItem %s can panic: %s" % (op, o.msg), rp)
@@ -684,6 +702,7 @@ def _(ctx):
     ctx.part.functions.append("compiler::duration::as_time")
     ctx.paths += len(outs)
     rp = ("m_replay_as_time", [(d, "i64")])
+    ctx.probe("as_time", ex, outs, lambda o: o.value.secs, [(d, -90061)])
     n = 0
     for o in outs:
         if o.kind == "panic":
@@ -779,6 +798,7 @@ def _(ctx):
     word = toks["type"].payload("Text").field(0, "alloc::string::String").term()
     want_round = z3.ToReal(z3.If(x >= 0, z3.ToInt(x + z3.Q(1, 2)), -z3.ToInt(-x + z3.Q(1, 2))))
     table = {"hex": "Hexadecimal", "hexadecimal": "Hexadecimal", "octal": "Octal", "binary": "Binary", "decimal": "Decimal"}
+    ctx.probe("number_type_convert", ex, outs, lambda o: ok_payload(o)[1][0].t, [(x, z3.Q(21, 2)), (word, z3.StringVal("hex"))])
     seen = set()
     for o in outs:
         if o.kind == "panic":
@@ -821,6 +841,8 @@ def _(ctx):
         ctx.part.functions += ["compiler::time::calculate", "compiler::duration::as_time"]
         ctx.paths += len(outs)
         rp = ("m_replay_time_calc", [(op == "Add", "bool"), (t.secs, "u32"), (d, "i64")])
+        if op == "Add":
+            ctx.probe("time_add", ex, outs, lambda o: some_item(o).f[0].secs, [(t.days, 738000), (t.secs, 86000), (d, 90061)])
         n = 0
         for o in outs:
             if o.kind == "panic":
@@ -833,12 +855,14 @@ def _(ctx):
             n += 1
             r = it.f[0]
             step = abs_(d) % 86400
-            if op == "Add":
-                want = z3.If(d >= 0, t.total() + step, t.total() - step)
-                ctx.claim(ex, o.path, r.total() == want, "time + D does not move the clock by D mod 24 h", rp)
-            else:
-                want = z3.If(d >= 0, t.total() - step, t.total() + step)
-                ctx.claim(ex, o.path, r.total() == want, "time - D does not move the clock back by D mod 24 h (forward for a negative D)", rp)
+            for neg in (False, True):
+                sign = (1 if op == "Add" else -1) * (-1 if neg else 1)
+                stepn = (-d if neg else d) % 86400
+                p2 = o.path.add(d < 0 if neg else d >= 0)
+                if not ex.feasible(p2):
+                    continue
+                ctx.claim(ex, p2, r.total() == t.total() + sign * stepn,
+                          "time %s D does not move the clock by D mod 24 h in the direction of the operator and the sign of D" % ("+" if op == "Add" else "-"), rp, timeout_ms=120000)
         if not n:
             ctx.failures.append(("TimeItem %s has no computed path" % op, {}, None))
 
@@ -927,6 +951,8 @@ def _(ctx):
     ctx.part.functions += ["date_time_rules::from_unixtime", "date_time_rules::to_unixtime"]
     ctx.paths += len(outs)
     rp = ("m_replay_unixtime", [(x.t, "f64")])
+    ctx.probe("from_unixtime_sod", ex, outs, lambda o: ok_payload(o)[1][0].secs, [(x.t, 1234567890)])
+    ctx.probe("from_unixtime_days", ex, outs, lambda o: ok_payload(o)[1][0].days, [(x.t, 1234567890)])
     cnt = 0
     for o in outs:
         if o.kind == "panic":
@@ -953,6 +979,8 @@ def _(ctx):
     ctx.paths += len(outs)
     src = toks["data"]
     seen = set()
+    _dv, _ = tz_fields(src, "Date")
+    ctx.probe("to_unixtime_date", ex, outs, lambda o: ok_payload(o)[1][0].t, [(tag_is(ex, src, "Date"), True), (_dv.days, 738000)])
     for o in outs:
         if o.kind == "panic":
             ctx.reachable(ex, o.path, "to_unixtime can panic: " + o.msg)
@@ -985,6 +1013,9 @@ def _(ctx):
     ctx.paths += len(outs)
     a, b = toks["source"], toks["target"]
     seen = set()
+    _va, _ = tz_fields(a, "Date")
+    _vb, _ = tz_fields(b, "Date")
+    ctx.probe("to_duration_dates", ex, outs, lambda o: duration_payload(o), [(tag_is(ex, a, "Date"), True), (tag_is(ex, b, "Date"), True), (_va.days, 738000), (_vb.days, 737000)])
     for o in outs:
         if o.kind == "panic":
             ctx.reachable(ex, o.path, "to_duration can panic: " + o.msg)
@@ -1296,3 +1327,496 @@ def _(ctx):
             ctx.claim(ex, o.path, secs == abs_(va.total() - vb.total()), "'T1 to T2' is not the absolute difference of the two instants", rp)
     if not n:
         ctx.failures.append(("to_duration has no Ok path for two times", {}, None))
+
+
+@spec("C09", "m_small_date", "small_date (MIR -> SMT, Gregorian calendar modelled and validated against chrono): day / month (number or month name) / optional year (default: the current year) yield exactly the calendar date (day number of y-m-d) when y-m-d is a date of the proleptic Gregorian calendar, and are declined otherwise (impossible dates are never accepted), for all f64 day/month/year values incl. fractional, negative and huge ones; no panic")
+def _(ctx):
+    ex, fields, toks, args, cfgv, tkv = setup_rule("small_date", "real")
+    outs, _ = run_fn(ex, "small_date", args)
+    ctx.part.functions += ["date_rules::small_date", "tokinizer::tools::get_number_or_month"]
+    ctx.paths += len(outs)
+    xd = fval(toks["day"], "Number")
+    mt = toks["month"]
+    m_is_num = tag_is(ex, mt, "Number")
+    xm = fval(mt, "Number")
+    m_tok = mt.payload("Month").field(0, "u32").t
+    has_y = fields.has_key("year")
+    xy = fval(toks["year"], "Number") if "year" in toks else None
+    d = ex.f_to_int(xd, 32, False).t
+    m = z3.If(m_is_num, ex.f_to_int(xm, 32, False).t, m_tok)
+    now_year = None
+    n_ok = 0
+    rp_terms = [(has_y, "bool"), (m_is_num, "bool"), (xd.t, "f64"), (z3.If(m_is_num, xm.t, z3.ToReal(m_tok)), "f64"), (xy.t if xy is not None else 0.0, "f64")]
+    rp = ("m_replay_small_date", rp_terms)
+    for o in outs:
+        if o.kind == "panic":
+            ctx.reachable(ex, o.path, "small_date can panic: " + o.msg, rp)
+            continue
+        y_given = ex.f_to_int(xy, 32, True).t if xy is not None else None
+        ny = getattr(ex, "_now_year", None)
+        y = z3.If(has_y, y_given, ny) if (y_given is not None and ny is not None) else (y_given if y_given is not None else ny)
+        if y is None:
+            continue
+        valid = models.valid_ymd(y, m, d)
+        if is_err(o):
+            ctx.claim(ex, o.path, z3.Not(valid), "small_date declines a real calendar date", rp)
+            continue
+        variant, f = ok_payload(o)
+        n_ok += 1
+        if variant != "Date":
+            ctx.failures.append(("small_date returns a %s" % variant, {}, None))
+            continue
+        ctx.claim(ex, o.path, valid, "small_date accepts an impossible date", rp)
+        ctx.claim(ex, o.path, f[0].days == models.days_from_civil(y, m, d), "small_date does not denote the calendar date day/month/year", rp)
+    if not n_ok:
+        ctx.failures.append(("small_date has no Ok path", {}, None))
+
+
+# ============================================================================ C12: arithmetic between unit quantities
+def h_convert_uninterpreted(ex, name, args, path, depth, caller):
+    """DynamicTypeItem::convert(config, number, source_type, target_name): conversion is decided by engine D;
+    here it is an uninterpreted partial linear map k(source unit, target name) * number"""
+    number, src, tgt = models.deref(args[1]), models.deref(args[2]), models.deref(args[3])
+    sid = unit_id(ex, src)
+    tname = tgt.term()
+    has = z3.Function("convert.has", z3.IntSort(), z3.StringSort(), z3.BoolSort())(sid, tname)
+    k = z3.Function("convert.k", z3.IntSort(), z3.StringSort(), z3.RealSort())(sid, tname)
+    tid = z3.Function("convert.target", z3.IntSort(), z3.StringSort(), z3.IntSort())(sid, tname)
+    yield from models.fork(ex, path, has, lambda: models.some(TupleV([FloatV(number.t * k, number.undef), UnitV(tid)])), models.NONE)
+
+
+class UnitV:
+    """Rc<DynamicType> identified by an integer (group, index); names[0] is a function of it"""
+    def __init__(self, uid):
+        self.uid = uid
+
+
+def unit_id(ex, v):
+    v = models.deref(v)
+    if isinstance(v, UnitV):
+        return v.uid
+    if isinstance(v, SymV):
+        if not hasattr(v, "_uid"):
+            v._uid = z3.Int(v.path + ".unit")
+            ex.inputs[v.path + ".unit"] = v._uid
+        return v._uid
+    raise Unsupported("unit value %r" % (v,))
+
+
+@spec("C12", "m_unit_calculate", "DynamicTypeItem::calculate (MIR -> SMT; conversion itself uninterpreted, decided by engine D): quantity (+,-) quantity converts the RIGHT operand into the left operand's unit (whatever the two units are) and keeps the left unit; quantity * / number scales and keeps the unit; quantity / quantity is a plain number; no panic")
+def _(ctx):
+    import re
+    for op in OPS:
+        ex = new_exec("real")
+        ex.handlers.insert(0, (re.compile(r"^DynamicTypeItem::convert$"), h_convert_uninterpreted))
+        ex.handlers.insert(0, (re.compile(r"^<Vec<(alloc::string::)?String> as (core::ops::)?Index<usize>>::index$"), lambda ex_, name, args, path, depth, caller: ex_.ret(path, RefV(StrV(z3.Function("unit.name0", z3.IntSort(), z3.StringSort())(unit_id(ex_, NAMES_OWNER[0])))))))
+        cfgv, item, other, me = calc_setup(ex, "DynamicTypeItem", ["DynamicTypeItem"])
+        my_unit = me.field(1, "Rc<config::DynamicType>")
+        NAMES_OWNER[0] = my_unit
+        outs = run_calc(ex, "DynamicTypeItem", item, cfgv, other, op)
+        ctx.part.functions.append("compiler::dynamic_type::calculate")
+        ctx.paths += len(outs)
+        x = me.field(0, "f64").t
+        y = other.payload("DynamicTypeItem").field(0, "f64").t
+        o_unit = other.payload("DynamicTypeItem").field(1, "Rc<config::DynamicType>")
+        sid, myid = unit_id(ex, o_unit), unit_id(ex, my_unit)
+        myname = z3.Function("unit.name0", z3.IntSort(), z3.StringSort())(myid)
+        k = z3.Function("convert.k", z3.IntSort(), z3.StringSort(), z3.RealSort())(sid, myname)
+        has = z3.Function("convert.has", z3.IntSort(), z3.StringSort(), z3.BoolSort())(sid, myname)
+        conv = y * k
+        for o in outs:
+            if o.kind == "panic":
+                ctx.reachable(ex, o.path, "DynamicTypeItem %s can panic: %s" % (op, o.msg))
+                continue
+            it = some_item(o)
+            if it == "None":
+                ctx.claim(ex, o.path, z3.Not(has), "unit arithmetic gives up although the right operand is convertible")
+                continue
+            if it is None:
+                raise Unsupported("calculate returned %r" % (o.value,))
+            if op == "Div":
+                if it.kind != "NumberItem":
+                    ctx.failures.append(("quantity / quantity yields a %s" % it.kind, {}, None))
+                    continue
+                ctx.claim(ex, o.path, z3.And(has, it.f[0].t == z3.If(conv == 0, 0, x / conv)), "quantity / quantity is not the ratio after converting the right operand")
+            else:
+                if it.kind != "DynamicTypeItem":
+                    ctx.failures.append(("quantity %s quantity yields a %s" % (op, it.kind), {}, None))
+                    continue
+                ctx.claim(ex, o.path, unit_id(ex, it.f[1]) == myid, "quantity %s quantity does not keep the left operand's unit" % op)
+                if op in ("Add", "Sub"):
+                    ctx.claim(ex, o.path, z3.And(has, it.f[0].t == real_op(op, x, conv)), "quantity %s quantity does not convert the right operand into the left unit" % op)
+        # quantity (op) number
+        ex = new_exec("real")
+        cfgv, item, other, me = calc_setup(ex, "DynamicTypeItem", ["NumberItem"])
+        outs = run_calc(ex, "DynamicTypeItem", item, cfgv, other, op)
+        ctx.paths += len(outs)
+        x = me.field(0, "f64").t
+        y = other.payload("NumberItem").field(0, "f64").t
+        myid = unit_id(ex, me.field(1, "Rc<config::DynamicType>"))
+        for o in outs:
+            if o.kind == "panic":
+                ctx.reachable(ex, o.path, "DynamicTypeItem %s NumberItem can panic: %s" % (op, o.msg))
+                continue
+            it = some_item(o)
+            if it == "None" or it is None or it.kind != "DynamicTypeItem":
+                ctx.reachable(ex, o.path, "quantity %s number is not a quantity" % op)
+                continue
+            ctx.claim(ex, o.path, z3.And(unit_id(ex, it.f[1]) == myid, it.f[0].t == real_op(op, x, y)), "quantity %s number does not scale the amount / keep the unit" % op)
+
+
+NAMES_OWNER = [None]
+
+
+@spec("C11", "m_parse_timezone_gmt", "parse_timezone (MIR -> SMT, regex captures as symbolic inputs): a 'GMT+-h[:mm]' zone denotes the offset sign * (60 h + mm) minutes for every hour/minute numeral and both signs (a missing sign is '+', missing minutes are 0); a table zone denotes the table's offset; no panic")
+def _(ctx):
+    ex = new_exec("real")
+    cfgv = SymV(ex, "config", "config::SmartCalcConfig")
+    cap = models.CapturesV(ex)
+    fn = find_fn("parse_timezone")
+    outs = list(ex.run(fn, [RefV(cfgv), RefV(cap)], Path()))
+    ctx.part.functions.append("tools::parse_timezone")
+    ctx.paths += len(outs)
+    num = z3.Function("str.numeral", z3.StringSort(), z3.IntSort())
+    has1, _t1 = cap.group("timezone_1")
+    has2, _t2 = cap.group("timezone_2")
+    hh, th = cap.group("timezone_hour")
+    hm, tm = cap.group("timezone_minute")
+    hs, ts = cap.group("timezone_type")
+    h, mi = num(th), num(tm)
+    ex.assumptions.append(z3.And(h >= 0, h <= 19, mi >= 0, mi <= 59))
+    n = 0
+    for o in outs:
+        if o.kind == "panic":
+            ctx.reachable(ex, o.path, "parse_timezone can panic: " + o.msg)
+            continue
+        v = o.value
+        if not (isinstance(v, EnumV) and v.enum == "Option"):
+            raise Unsupported("parse_timezone returned %r" % (v,))
+        if v.variant == "None":
+            continue
+        tup = v.f[0]
+        off = tup.f[1] if isinstance(tup, TupleV) else None
+        if not isinstance(off, IntV):
+            raise Unsupported("parse_timezone payload %r" % (tup,))
+        if ex.feasible(o.path, z3.And(z3.Not(has1), has2)):
+            n += 1
+            sign = z3.If(z3.And(hs, ts == z3.StringVal("-")), -1, 1)
+            want = sign * (60 * h + z3.If(hm, mi, 0))
+            ctx.claim(ex, o.path.add(z3.And(z3.Not(has1), has2)), off.t == want, "GMT+-h:mm does not denote sign * (60 h + mm) minutes",
+                      ("m_replay_parse_timezone", [(z3.And(hs, ts == z3.StringVal("-")), "bool"), (h, "u8"), (hm, "bool"), (mi, "u8")]))
+    if not n:
+        ctx.failures.append(("parse_timezone has no GMT path", {}, None))
+
+
+@spec("C13", "m_based_number_arithmetic", "NumberItem::calculate (MIR -> SMT): a hex / octal / binary / raw number takes part in + - * / exactly like a decimal one (the real operation, x/0 = 0) and the result keeps the left operand's NumberType")
+def _(ctx):
+    for op in OPS:
+        ex = new_exec("real")
+        cfgv, item, other, me = calc_setup(ex, "NumberItem", ["NumberItem"])
+        outs = run_calc(ex, "NumberItem", item, cfgv, other, op)
+        ctx.part.functions.append("compiler::number::calculate")
+        ctx.paths += len(outs)
+        x = me.field(0, "f64").t
+        nt = me.field(1, "types::NumberType")
+        y = other.payload("NumberItem").field(0, "f64").t
+        rp = ("m_replay_based_calc", [(OPS.index(op), "u8"), (nt.tag(), "u8"), (x, "f64"), (y, "f64")])
+        for o in outs:
+            if o.kind == "panic":
+                ctx.reachable(ex, o.path, "NumberItem %s can panic: %s" % (op, o.msg), rp)
+                continue
+            it = some_item(o)
+            if it == "None" or it is None or it.kind != "NumberItem":
+                ctx.reachable(ex, o.path, "number %s number is not a number" % op, rp)
+                continue
+            ctx.claim(ex, o.path, it.f[0].t == real_op(op, x, y), "a based number does not take part in %s like a decimal number" % op, rp)
+            t = it.f[1]
+            same = (t.tag() == nt.tag()) if isinstance(t, SymV) else (ex.discr("NumberType", t.variant) == nt.tag())
+            ctx.claim(ex, o.path, same, "the result of %s does not keep the left operand's NumberType" % op, rp)
+
+
+
+# ============================================================================ C03: straight-line programs of assignments and uses
+def tinfo(start, text, tok):
+    return StructV("TokenInfo", [IntV(start, 64, False), IntV(start + len(text), 64, False), EnumV("Option", "Some", [tok]), StrV(text),
+                                 EnumV("TokenInfoStatus", "Active", [])])
+
+
+class LineRunner:
+    """runs one line (a list of lexical tokens) through update_token_variables, token_generator, token_cleaner,
+    missing_token_adder, the parser and the interpreter, all translated from MIR, on a shared session"""
+
+    def __init__(self, ex):
+        from engine_m import find_fn
+        self.ex = ex
+        self.tfields = struct_fields("src/tokinizer/mod.rs", "Tokinizer")
+        self.sfields = struct_fields("src/session.rs", "Session")
+        self.sess = SymV(ex, "session", "session::Session")
+        self.cfgv = SymV(ex, "config", "config::SmartCalcConfig")
+        fns = ex.fns
+        pick = lambda rx: [f for n, f in fns.items() if _re.search(rx, n)]
+        self.f_update = find_fn("update_token_variables")
+        self.f_gen = pick(r"tokinizer::<impl at src/tokinizer/mod\.rs[^>]*>::token_generator$")[0]
+        self.f_clean = pick(r"tokinizer::<impl at src/tokinizer/mod\.rs[^>]*>::token_cleaner$")[0]
+        self.f_add = pick(r"tokinizer::<impl at src/tokinizer/mod\.rs[^>]*>::missing_token_adder$")[0]
+        self.f_new = [f for n, f in fns.items() if n.endswith("::new") and f.args and len(f.args) == 2 and "Tokinizer" in f.args[1][1] and "Session" in f.args[0][1]][0]
+        self.f_parse = pick(r"syntax::<impl at src/syntax/mod\.rs[^>]*>::parse$")[0]
+        self.f_exec = pick(r"<impl at src/compiler/mod\.rs[^>]*>::execute$")[0]
+        ex.handlers.insert(0, (_re.compile(r"^UiTokenCollection::(sort|update_tokens)$"), models.h_opaque))
+        self.n = 0
+
+    def initial_path(self):
+        return Path(stores={(self.sess.path, self.sfields.index("variables")): MapC()})
+
+    def run_line(self, toks, path):
+        """toks: list of ('t', text) | ('n', FloatV) | ('o', char). yields (kind, path, value)"""
+        ex = self.ex
+        self.n += 1
+        tk = SymV(ex, "tokinizer%d" % self.n, "tokinizer::Tokinizer")
+        infos, pos = [], 0
+        for kind, v in toks:
+            if kind == "t":
+                infos.append(tinfo(pos, v, EnumV("TokenType", "Text", [StrV(v)])))
+                pos += len(v) + 1
+            elif kind == "n":
+                infos.append(tinfo(pos, "1", EnumV("TokenType", "Number", [v, EnumV("NumberType", "Decimal", [])])))
+                pos += 2
+            elif kind == "d":
+                infos.append(tinfo(pos, "1h", EnumV("TokenType", "Duration", [DurationV(z3.IntVal(3600))])))
+                pos += 3
+            else:
+                infos.append(tinfo(pos, v, EnumV("TokenType", "Operator", [IntV(ord(v), 32, False)])))
+                pos += 2
+        st = dict(path.stores)
+        st[(tk.path, self.tfields.index("token_infos"))] = VecV(infos)
+        st[(tk.path, self.tfields.index("tokens"))] = VecV([])
+        st[(tk.path, self.tfields.index("session"))] = RefV(self.sess)
+        st[(tk.path, self.tfields.index("ui_tokens"))] = OpaqueV("ui_tokens")
+        p0 = Path(path.pc, path.events, path.notes, st)
+
+        def chain(fs, p):
+            if not fs:
+                yield p
+                return
+            for o in ex.run(fs[0], [RefV(tk)], p):
+                if o.kind == "panic":
+                    yield o
+                else:
+                    yield from chain(fs[1:], o.path)
+        for p1 in chain([self.f_update, self.f_gen, self.f_clean, self.f_add], p0):
+            if isinstance(p1, execmir_Outcome):
+                yield "panic", p1.path, p1.msg
+                continue
+            for o2 in ex.run(self.f_new, [RefV(self.sess), RefV(tk)], p1):
+                for o3 in ex.run(self.f_parse, [RefV(o2.value)], o2.path):
+                    if o3.kind == "panic":
+                        yield "panic", o3.path, o3.msg
+                        continue
+                    r = o3.value
+                    if r.variant == "Err":
+                        yield "error", o3.path, r.f[0]
+                        continue
+                    for o4 in ex.run(self.f_exec, [RefV(self.cfgv), r.f[0], RefV(self.sess)], o3.path):
+                        if o4.kind == "panic":
+                            yield "panic", o4.path, o4.msg
+                        elif isinstance(o4.value, EnumV) and o4.value.variant == "Ok":
+                            yield "value", o4.path, result_number(o4)
+                        else:
+                            yield "error", o4.path, None
+
+
+from mirsmt.execmir import Outcome as execmir_Outcome  # noqa: E402
+
+NAMES = {"x": ["x"], "y": ["y"], "xy": ["x", "y"]}
+
+
+def c03_statements():
+    """statement templates: (label, lhs name or None, rhs builder(env, fresh) -> (tokens, reference value or None=fails))"""
+    sts = []
+    for nm in NAMES:
+        sts.append(("%s=c" % nm, nm, "const"))
+        sts.append(("%s=%s+c" % (nm, nm), nm, "self"))
+        sts.append(("use %s" % nm, None, "use:" + nm))
+        sts.append(("%s=parse-fail" % nm, nm, "fail"))
+        sts.append(("%s=eval-fail" % nm, nm, "evalfail"))
+    sts.append(("y=x", "y", "copy:x"))
+    sts.append(("x=xy*c", "x", "mul:xy"))
+    return sts
+
+
+def program_is_defined(prog):
+    """static check: every use reads a name bound by an earlier successful assignment"""
+    sts = c03_statements()
+    bound = set()
+    for si in prog:
+        label, lhs, kind = sts[si]
+        need = None
+        if kind == "self":
+            need = lhs
+        elif kind.startswith(("use:", "copy:", "mul:")):
+            need = kind.split(":")[1]
+        if need and need not in bound:
+            return False
+        if lhs and kind not in ("fail", "evalfail"):
+            bound.add(lhs)
+    return True
+
+
+def check_program(prog):
+    """worker: one straight-line program (tuple of statement indices)"""
+    import time as _t
+    ex = new_exec("real", feas_ms=2000)
+    t0 = _t.time()
+    res = {"prog": prog, "status": "pass", "detail": "", "queries": 0, "paths": 0}
+    try:
+        lr = LineRunner(ex)
+        sts = c03_statements()
+        env = {}                     # reference environment: name -> z3 real term
+        path = lr.initial_path()
+        labels = []
+        for li, si in enumerate(prog):
+            label, lhs, kind = sts[si]
+            labels.append(label)
+            c = ex.fsym("c%d" % li)
+            toks, want = [], None
+            name_toks = lambda nm: [("t", w) for w in NAMES[nm]]
+            if lhs:
+                toks += name_toks(lhs) + [("o", "=")]
+            if kind == "const":
+                toks += [("n", c)]
+                want = c.t
+            elif kind == "self":
+                toks += name_toks(lhs) + [("o", "+"), ("n", c)]
+                want = (env[lhs] + c.t) if lhs in env else None
+                if lhs not in env:
+                    want = ("undefined",)
+            elif kind.startswith("use:"):
+                nm = kind[4:]
+                toks += name_toks(nm) + [("o", "+"), ("n", c)]
+                want = (env[nm] + c.t) if nm in env else ("undefined",)
+            elif kind == "fail":
+                toks += [("n", c), ("o", "*"), ("o", ")")]
+                want = None
+            elif kind == "evalfail":
+                # parses, but number * duration has no meaning: the interpreter reports "Unknown calculation"
+                toks += [("n", c), ("o", "*"), ("d", None)]
+                want = None
+            elif kind.startswith("copy:"):
+                nm = kind[5:]
+                toks += name_toks(nm)
+                want = env[nm] if nm in env else ("undefined",)
+            elif kind.startswith("mul:"):
+                nm = kind[4:]
+                toks += name_toks(nm) + [("o", "*"), ("n", c)]
+                want = (env[nm] * c.t) if nm in env else ("undefined",)
+            if isinstance(want, tuple):
+                # a use of a name that was never bound: outside the property (texts of unknown words are dropped); skip program
+                res["status"] = "skip"
+                return res
+            outs = list(lr.run_line(toks, path))
+            res["paths"] += len(outs)
+            if len(outs) != 1:
+                # several feasible paths (e.g. a division guard): take them all - none expected for these templates
+                pass
+            nxt = None
+            for kind_o, p_o, v in outs:
+                s = z3.Solver()
+                s.set("timeout", 20000)
+                for cc in ex.domain + ex.assumptions + list(p_o.pc):
+                    s.add(cc)
+                if kind_o == "panic":
+                    res["queries"] += 1
+                    if s.check() == z3.sat:
+                        res.update(status="fail", detail="line %d (%s) panics: %s" % (li + 1, label, v))
+                        return res
+                    continue
+                if want is None:
+                    if kind_o == "value":
+                        res.update(status="fail", detail="line %d (%s): a failing line produced a value" % (li + 1, label))
+                        return res
+                elif kind_o != "value" or v is None:
+                    res["queries"] += 1
+                    if s.check() == z3.sat:
+                        res.update(status="fail", detail="line %d (%s) does not evaluate (program %s)" % (li + 1, label, labels))
+                        return res
+                    continue
+                else:
+                    s.add(v.t != want)
+                    res["queries"] += 1
+                    r = s.check()
+                    if r == z3.sat:
+                        m = s.model()
+                        res.update(status="fail", detail="line %d (%s) of program %s evaluates to %s, the latest bindings give %s" % (
+                            li + 1, label, labels, m.eval(v.t, model_completion=True), m.eval(want, model_completion=True)))
+                        res["consts"] = [str(m.eval(z3.Real("c%d" % k), model_completion=True)) for k in range(len(prog))]
+                        return res
+                    if r == z3.unknown:
+                        res.update(status="unknown", detail="line %d undecided" % (li + 1))
+                        return res
+                nxt = p_o if nxt is None else nxt
+            if nxt is None:
+                res.update(status="fail", detail="line %d (%s) has no feasible outcome" % (li + 1, label))
+                return res
+            path = nxt
+            if lhs and want is not None:
+                env[lhs] = want
+    except Unsupported as e:
+        res.update(status="unsupported", detail=str(e)[:300])
+    res["t"] = _t.time() - t0
+    return res
+
+
+def c03_programs(max_len, with_prefix=True):
+    import itertools
+    sts = c03_statements()
+    n = len(sts)
+    seen = set()
+    for L in range(1, max_len + 1):
+        for t in itertools.product(range(n), repeat=L):
+            if program_is_defined(t):
+                seen.add(t)
+                yield t
+    if with_prefix:
+        # all three names bound (x, y and the two-word name 'x y'), then any two further statements
+        idx = {s_[0]: i for i, s_ in enumerate(sts)}
+        pre = (idx["x=c"], idx["y=c"], idx["xy=c"])
+        for t in itertools.product(range(n), repeat=2):
+            pr = pre + t
+            if program_is_defined(pr) and pr not in seen:
+                yield pr
+
+
+def c03_spec(ctx, max_len):
+    import multiprocessing as mp
+    from engine_m import mir
+    mir()
+    todo = list(c03_programs(max_len))
+    with mp.Pool(min(16, mp.cpu_count())) as pool:
+        results = pool.map(check_program, todo, chunksize=4)
+    ctx.part.functions += ["variable::update_token_variables", "types::find_location", "tokinizer::Tokinizer::token_generator", "tokinizer::Tokinizer::token_cleaner",
+                           "syntax::assignment::AssignmentParser::parse", "compiler::Interpreter::executer_assignment", "compiler::Interpreter::executer_variable", "session::Session::add_variable"]
+    run = [r for r in results if r["status"] != "skip"]
+    ctx.paths += sum(r["paths"] for r in run)
+    ctx.part.queries += sum(r["queries"] for r in run)
+    ctx.part.sample = {"programs": len(run), "skipped_use_before_binding": len(results) - len(run), "statement_templates": [s[0] for s in c03_statements()]}
+    uns = [r for r in run if r["status"] == "unsupported"]
+    if uns:
+        raise Unsupported("%d programs refused, e.g. %s: %s" % (len(uns), uns[0]["prog"], uns[0]["detail"]))
+    for r in run:
+        if r["status"] == "unknown":
+            ctx.unknown.append(r["detail"])
+        if r["status"] == "fail":
+            from engine_m import to_f64, f64_bytes
+            cs = [to_f64(x) for x in (r.get("consts") or ["%d" % (k + 2) for k in range(len(r["prog"]))])]
+            enc = [[len(r["prog"])]] + [[i] for i in r["prog"]] + [f64_bytes(c) for c in cs]
+            ctx.failures.append((r["detail"], {"program": [c03_statements()[i][0] for i in r["prog"]], "constants": cs}, ("m_replay_program", enc)))
+
+
+@spec("C03", "m_programs_3", "every straight-line program of <= 3 lines (plus: x, y and 'x y' bound, then any two statements) over the statement templates {name = c, name = name + c, use of name, line failing in the parser, line failing in the interpreter, y = x, x = 'x y' * c} with names x, y and the two-word name 'x y', through the REAL update_token_variables / token_generator / token_cleaner / missing_token_adder / AssignmentParser / interpreter (MIR): every line evaluates to the value given by the latest bindings for ALL real constants, the longest name wins, a binding holds a value (not a reference), a failing line changes nothing", tiers=("quick",))
+def _(ctx):
+    c03_spec(ctx, 3)
+
+
+@spec("C03", "m_programs_4", "same for programs of <= 4 lines", tiers=("thorough",))
+def _(ctx):
+    c03_spec(ctx, 4)
